@@ -14,6 +14,7 @@ TRUSTED = [
     'oracles applied by the harness to the model result: encodings.is_ascii_compatible_encoding on the charset name, bytes.decode(charset)',
     'modelled, not verified: memoryview slicing/indexing, struct.unpack, bytes.split, the `re` search for charset=',
     'the harness MO serialiser (tools/harness/mo_lib.py) and its catalog generator',
+    'source translator tools/gen/gen_moparser_src.py (python ast of Parser._read_ints/_parse_entry/_parse and the magic constants -> Generated/MoParserSrc.v, fail-closed subset, rules in its docstring) with the Gallina meaning of that subset in Model/MoParserPy.v; the C08_source_tie_* theorems prove its output equal to Model/MoParser.v; Parser.__init__ (file reading, cast to bytes of length 1, creation of the MOFile) and what polib.MOEntry does with its arguments stay tied by correspondence only',
 ]
 ASSUME = ['bytes of the file are < 256 (bytes_ok) where a theorem needs the value of a word',
           'a "legal layout" = what gmo.h requires a reader to interpret: header words 0..4 (and word 9 when minor = 1), two descriptor tables, '
